@@ -82,8 +82,6 @@ def run(C, R):
                            'is_locked written with a non-constant value %s' % fmt_val(w['val']), where(F, w))
                 rv = path.ret
                 grant = (rv == ('const', 1)) or poll_variant(E, path) == 'Ready'
-                if m.get('name') in ('unlock', 'remove_waiter', 'return_last_waiter', 'is_locked'):
-                    grant = False
                 if len(sets) > 1:
                     R.fail('C02.R2', [m['path'], 'double-set', path_cond(E, path)],
                            'is_locked set twice on one path', where(F, sets[1]))
@@ -101,16 +99,16 @@ def run(C, R):
                     R.fail('C02.R2', [m['path'], 'set-on-non-grant-path', path_cond(E, path)],
                            '%s sets is_locked on a path that does not report success' % m['path'],
                            where(F, sets[0]))
-                if grant and not sets and m.get('name') in ('try_lock', 'try_lock_sync'):
+                if grant and not sets:
                     R.fail('C02.R2', [m['path'], 'grant-without-set', path_cond(E, path)],
                            '%s reports success without setting is_locked [%s]' % (m['path'], path_cond(E, path)),
                            '%s:%s' % (m['file'], m['line']), {'trace': trace_summary(path)})
                 elif grant:
                     R.ok('C02.R2', '%s|grant|%s' % (m['path'], path_cond(E, path)))
         R.floor('C02.R2 set-sites[%s]' % cfg, nset, 3)
-        # ---- R3: who may write / clear
+        # ---- R3: who may write / clear: the bit is cleared only in code reachable solely from the guard's Drop
         writes = scan_field_writes(F, 'is_locked', 'sync::mutex')
-        nclear = 0
+        clear_fns = set()
         for fn, s in writes:
             rv = s['rv']
             val = rv.get('use', {}).get('int') if 'use' in rv else None
@@ -119,29 +117,33 @@ def run(C, R):
                        'is_locked written outside MutexState: %s' % fn['path'], F.loc(fn, s['ln']))
                 continue
             if val == 0:
-                nclear += 1
-                if fn.get('name') != 'unlock':
-                    R.fail('C02.R3', [fn['path'], 'clear-outside-unlock'],
-                           'is_locked cleared in %s (only unlock may release the mutex)' % fn['path'],
-                           F.loc(fn, s['ln']))
-                else:
-                    R.ok('C02.R3', '%s|clear' % fn['path'])
+                clear_fns.add(fn['path'])
             elif val == 1:
                 R.ok('C02.R3', '%s|set' % fn['path'])
             else:
                 R.fail('C02.R3', [fn['path'], 'non-constant-write'], 'is_locked written with a non-constant',
                        F.loc(fn, s['ln']))
-        R.floor('C02.R3 clear-sites[%s]' % cfg, nclear, 1)
-        unlock = F.one_fn(impl_adt=STATE, name='unlock')
-        callers = sorted(set(c for c, _ in CG.callers_of(unlock['path'])))
-        for c in callers:
-            cf = F.fn(c)
-            if cf and cf.get('impl_adt') == GUARD and (cf.get('impl_trait') or '').endswith('ops::Drop'):
-                R.ok('C02.R3', 'unlock-caller|%s' % c)
-            else:
-                R.fail('C02.R3', [c, 'unlock-caller'], 'MutexState::unlock is called from %s, not only from the '
-                       'guard destructor' % c, '%s:%s' % (cf['file'], cf['line']) if cf else None)
-        R.floor('C02.R3 unlock-callers[%s]' % cfg, len(callers), 1)
+        R.floor('C02.R3 clear-sites[%s]' % cfg, len(clear_fns), 1)
+        for cf in sorted(clear_fns):
+            seen, work, roots = set(), [cf], set()
+            while work:
+                p = work.pop()
+                if p in seen:
+                    continue
+                seen.add(p)
+                callers = [c for c, _ in CG.callers_of(p)]
+                if not callers:
+                    roots.add(p)
+                work += callers
+            for r in sorted(roots):
+                rf = F.fn(r)
+                if rf and rf.get('impl_adt') == GUARD and (rf.get('impl_trait') or '').endswith('ops::Drop'):
+                    R.ok('C02.R3', '%s|cleared only via the guard destructor' % cf,
+                         {'clearing_function': cf, 'only_api_root': r})
+                else:
+                    R.fail('C02.R3', [cf, 'clear-reachable-from', r],
+                           'is_locked is cleared in %s, which is reachable from %s and not only from the guard '
+                           'destructor' % (cf, r), '%s:%s' % (rf['file'], rf['line']) if rf else None)
         # ---- R4: guard uniqueness & cell access
         g = F.adt(GUARD)
         if g['self_auto']['Clone'] or g['self_auto']['Copy'] or F.impls_of(trait_suffix='clone::Clone', self_adt=GUARD) \
